@@ -50,6 +50,13 @@ func LoadHIDIConfig(path string) (HIDIConfig, error) {
 		return HIDIConfig{}, err
 	}
 
+	if rawConfig.HIDI.PoolRate <= 0 {
+		return HIDIConfig{}, fmt.Errorf("pool_rate has to be a positive number, got %d", rawConfig.HIDI.PoolRate)
+	}
+	if rawConfig.HIDI.DiscoveryRate <= 0 {
+		return HIDIConfig{}, fmt.Errorf("discovery_rate has to be a positive number, got %d", rawConfig.HIDI.DiscoveryRate)
+	}
+
 	var config HIDIConfig
 
 	config.HIDI.EVThrottling = time.Second / time.Duration(rawConfig.HIDI.PoolRate)
